@@ -387,6 +387,11 @@ func inStep(i, start, end, step int) bool {
 	return end <= i && i <= start && (i-end)%-step == 0
 }
 
+// startEndStep normalizes the slice bounds for a collection of the given
+// size: a negative bound counts from the end and the end is exclusive, as in
+// Expr.Get. The caller iterates with "for i := start; i < end; i += step"
+// when step is positive and with "for i := start; end < i; i += step" when it
+// is negative; a step of 0 selects nothing.
 func (f Slice) startEndStep(size int) (start, end, step int) {
 	start = 0
 	end = maxEnd
@@ -405,14 +410,20 @@ func (f Slice) startEndStep(size int) (start, end, step int) {
 	}
 	if start < 0 {
 		start = size + start
+		if start < 0 {
+			if step < 0 { // walking down from before the first element
+				return 0, 0, step
+			}
+			start = 0
+		}
 	} else if size <= start {
+		if 0 < step { // walking up from behind the last element
+			return 0, 0, step
+		}
 		start = size - 1
 	}
-	if start < 0 {
-		start = 0
-	}
 	if end < 0 {
-		end = size + end + 1
+		end = size + end
 		if end < 0 && step < 0 {
 			end = -1
 		}
@@ -433,6 +444,9 @@ func (f Slice) locate(pp Expr, data any, rest Expr, max int) (locs []Expr) {
 			if len(rest) == 0 { // last one
 				for i := start; i < end; i += step {
 					locs = locateAppendFrag(locs, pp, Nth(i))
+					if 0 < max && max <= len(locs) {
+						break
+					}
 				}
 			} else {
 				cp := append(pp, nil) // place holder
@@ -448,6 +462,9 @@ func (f Slice) locate(pp Expr, data any, rest Expr, max int) (locs []Expr) {
 			if len(rest) == 0 { // last one
 				for i := start; end < i; i += step {
 					locs = locateAppendFrag(locs, pp, Nth(i))
+					if 0 < max && max <= len(locs) {
+						break
+					}
 				}
 			} else {
 				cp := append(pp, nil) // place holder
@@ -469,6 +486,9 @@ func (f Slice) locate(pp Expr, data any, rest Expr, max int) (locs []Expr) {
 			if len(rest) == 0 { // last one
 				for i := start; i < end; i += step {
 					locs = locateAppendFrag(locs, pp, Nth(i))
+					if 0 < max && max <= len(locs) {
+						break
+					}
 				}
 			} else {
 				cp := append(pp, nil) // place holder
@@ -484,6 +504,9 @@ func (f Slice) locate(pp Expr, data any, rest Expr, max int) (locs []Expr) {
 			if len(rest) == 0 { // last one
 				for i := start; end < i; i += step {
 					locs = locateAppendFrag(locs, pp, Nth(i))
+					if 0 < max && max <= len(locs) {
+						break
+					}
 				}
 			} else {
 				cp := append(pp, nil) // place holder
@@ -505,6 +528,9 @@ func (f Slice) locate(pp Expr, data any, rest Expr, max int) (locs []Expr) {
 			if len(rest) == 0 { // last one
 				for i := start; i < end; i += step {
 					locs = locateAppendFrag(locs, pp, Nth(i))
+					if 0 < max && max <= len(locs) {
+						break
+					}
 				}
 			} else {
 				cp := append(pp, nil) // place holder
@@ -520,6 +546,9 @@ func (f Slice) locate(pp Expr, data any, rest Expr, max int) (locs []Expr) {
 			if len(rest) == 0 { // last one
 				for i := start; end < i; i += step {
 					locs = locateAppendFrag(locs, pp, Nth(i))
+					if 0 < max && max <= len(locs) {
+						break
+					}
 				}
 			} else {
 				cp := append(pp, nil) // place holder
@@ -540,6 +569,9 @@ func (f Slice) locate(pp Expr, data any, rest Expr, max int) (locs []Expr) {
 		switch rt.Kind() {
 		case reflect.Slice, reflect.Array:
 			start, end, step := f.startEndStep(rd.Len())
+			if step == 0 {
+				return
+			}
 			if 0 < step {
 				if len(rest) == 0 { // last one
 					for i := start; i < end; i += step {
@@ -606,7 +638,7 @@ func (f Slice) Walk(rest, path Expr, nodes []any, cb func(path Expr, nodes []any
 		max = tn.Size()
 	default:
 		rv := reflect.ValueOf(tn)
-		if rv.Kind() == reflect.Slice {
+		if rv.Kind() == reflect.Slice || rv.Kind() == reflect.Array {
 			max = rv.Len()
 		}
 	}
